@@ -17,8 +17,7 @@ def run(tier):
         dict(name='2 sessions: opens (accepted / rejected), closes by every cause, API calls with '
                   'live / dead ids, monitor sweeps, clock',
              consts=core.consts(Sid='{1, 2}',
-                                Alpha=A('open', 'reject', 'post', 'api', 'sess', 'send', 'tick',
-                                        'shutdown')
+                                Alpha=A('open', 'reject', 'post', 'api', 'sess', 'send', 'tick')
                                 if th else A('open', 'reject', 'post', 'sess', 'tick', 'shutdown'),
                                 BodyProfile='"close"', PingInterval=2, PingTimeout=2, Monitor='TRUE',
                                 MaxMsg=1, Horizon=6, MaxReq=4 if th else 3, MaxQ=3,
@@ -42,7 +41,7 @@ def run(tier):
              invariants=[i for i in INVS if i != 'C16_ReapedInTime'] + ['C16_DataIsolatedMC'],
              min_states=300),
     ]
-    core.run_tlc_jobs(ck, jobs)
+    core.run_tlc_jobs(ck, jobs, timeout=3600)
 
     seed = ck.seed
     plans = []
